@@ -125,7 +125,7 @@ class KeywordSearches:
                 str(yaml_path))
         match_key = parameters[0]
 
-        if match_key[0] == "&":
+        if match_key.startswith("&"):
             matches = KeywordSearches._has_anchored_child(
                 data, invert, parameters, yaml_path, **kwargs)
         else:
@@ -260,7 +260,8 @@ class KeywordSearches:
         relay_segment: PathSegment = kwargs.pop("relay_segment", None)
 
         match_key = parameters[0]
-        anchor_name = match_key[1:] if match_key[0] == "&" else match_key
+        anchor_name = (match_key[1:] if match_key.startswith("&")
+                       else match_key)
 
         if isinstance(data, CommentedMap):
             # Look for YAML Merge Keys by the Anchor name
